@@ -75,7 +75,7 @@ Trail(toks, j, keepWs) ==
   IF j > Len(toks) THEN "trim"
   ELSE IF toks[j].k = "T" /\ ~AllWs(toks[j].b) THEN "keep"
   ELSE IF toks[j].k \in {"S", "E"} THEN
-         (IF keepWs /\ Fault # "ws" THEN "keep"
+         (IF keepWs /\ Fault # "ws" /\ ~(Fault = "wsblock" /\ toks[j].n \in BlockT) THEN "keep"
           ELSE IF toks[j].n \in BlockT THEN "trim"
           ELSE IF toks[j].k = "S" THEN "keep"
           ELSE Trail(toks, j + 1, keepWs))
